@@ -408,8 +408,27 @@ def pmap(func, chunks, procs=None):
     if len(chunks) <= 1 or procs <= 1:
         return [func(c) for c in chunks]
     ctx = mp.get_context("fork")
-    with ctx.Pool(procs) as pool:
-        return pool.map(func, chunks, chunksize=1)
+    try:
+        with ctx.Pool(procs) as pool:
+            return pool.map(func, chunks, chunksize=1)
+    except Exception as e:      # noqa: BLE001 - an exception the worker did not expect from the code under test
+        import traceback
+        for ch in chunks:
+            for item in ch:
+                try:
+                    func([item])
+                except Exception as ex:      # noqa: BLE001
+                    tb = traceback.extract_tb(ex.__traceback__)
+                    raise WorkerCrash(item, "%r [%s]" % (ex, " <- ".join("%s:%d" % (os.path.basename(f.filename), f.lineno) for f in tb[-5:]))) from None
+        raise WorkerCrash(None, repr(e)) from None
+
+
+class WorkerCrash(Exception):
+    """a worker of a check raised on one item: reported by check.py as a violation with that item as the replay"""
+    def __init__(self, item, what):
+        super().__init__(what)
+        self.item = item
+        self.what = what
 
 
 def chunked(seq, n):
